@@ -434,6 +434,9 @@ pub enum Op {
     Remove(usize),
     /// a clone of the workbook is fully loaded, saved to a sink and dropped: the original must not notice
     Fork,
+    /// sheet i is materialised READ-ONLY (read_sheet), copied with get_sheet(i).clone(), the copy is renamed and edited
+    /// as an owned object and appended with add_sheet
+    CopySheet(usize),
     Save,
 }
 impl Op {
@@ -448,6 +451,7 @@ impl Op {
             Op::New => json!({"op": "new_sheet+cell"}),
             Op::Remove(i) => json!({"op": "remove_sheet", "i": i}),
             Op::Fork => json!({"op": "clone(); clone.read_sheet_collection(); save clone; drop clone"}),
+            Op::CopySheet(i) => json!({"op": "read_sheet(i); c = get_sheet(i).clone(); c.set_name(..); c.A1 = text; add_sheet(c)", "i": i, "text": COPY_TEXT}),
             Op::Save => json!({"op": "save"}),
         }
     }
@@ -462,12 +466,14 @@ impl Op {
             Op::New => "new_sheet",
             Op::Remove(_) => "remove_sheet",
             Op::Fork => "fork_clone",
+            Op::CopySheet(_) => "copy_sheet_after_read_only_access",
             Op::Save => "save",
         }
     }
 }
 const EDIT_TEXT: &str = "lazy edit <&> text";
 const NEW_TEXT: &str = "text of a new sheet";
+const COPY_TEXT: &str = "edited in the copy";
 const MAX_SHEETS: usize = 64;
 
 fn ops_for(n: usize) -> Vec<Op> {
@@ -497,6 +503,12 @@ fn ops_for(n: usize) -> Vec<Op> {
         }
     }
     v.push(Op::Fork);
+    if n < MAX_SHEETS {
+        v.push(Op::CopySheet(0));
+        if n >= 2 {
+            v.push(Op::CopySheet(n - 1));
+        }
+    }
     v.push(Op::Save);
     v
 }
@@ -597,6 +609,22 @@ fn apply(b: &mut Spreadsheet, op: &Op) -> String {
             match r {
                 Ok(()) => "ok".into(),
                 Err(e) => format!("err:{:?}", e),
+            }
+        }
+        Op::CopySheet(i) => {
+            b.read_sheet(*i);
+            let n = fresh_name(b, "Copy");
+            let mut c = match b.get_sheet(i) {
+                Some(w) => w.clone(),
+                None => return "none".into(),
+            };
+            c.set_name(n);
+            // workbook-wide names live on the sheet object: a copy must not bring them a second time
+            c.get_defined_names_mut().clear();
+            c.get_cell_mut("A1").set_value_string(COPY_TEXT);
+            match b.add_sheet(c) {
+                Ok(_) => "ok".into(),
+                Err(e) => format!("err:{}", e),
             }
         }
         Op::Save => "ok".into(),
@@ -976,6 +1004,14 @@ impl<'a> C11Machine<'a> {
                     s.lp.remove(*i);
                     s.tp.remove(*i);
                 }
+            }
+            Op::CopySheet(i) => {
+                s.model[*i].expect_mat = true;
+                touched.push(*i);
+                s.model.push(MSheet { orig: None, expect_mat: true, renamed_while_unloaded: false, edited: true });
+                s.lp.push(None);
+                s.tp.push(None);
+                touched.push(s.model.len() - 1);
             }
             Op::Fork | Op::Save => {}
         }
